@@ -164,6 +164,38 @@ def check_integration(ck):
                      replay=lambda res, tr=tr, S=S, it=it, rest=rest: concrete.replay_outputs(tr, S, res, uf_apps=it.uf_apps, oracle=rest))
             if name == "on_policy/discrete+timelimit":
                 ck.witness("witness.truncated_step_reachable", A + [R["trunc"], o.lnot(R["term"])])
+            if algo_kind == "off_policy" and kind == "discrete":
+                # the phases built from `step` (replay warm-up, rollout of an iteration) hand the logger's state on unchanged: each is the fold of
+                # `step` over its split keys, for EVERY leaf of the step state (environment, policy, buffer and the callbacks' state alike)
+                from jaxsmt.interp import ksplit
+                L = 2
+                algo2 = ProbeOff(buffer_size=2, learning_starts=L, num_steps=L)
+                for phase, call in (("warmup", lambda env, pol, st, key: {"state": algo2.collect_learning_starts(env, pol, st, cb, key)}),
+                                    ("rollout", lambda env, pol, st, key: {"state": algo2.collect_rollout(env, pol, st, cb, key)})):
+                    trp = trace(call, env, pol, st, jr.key(0), argnames=["env", "pol", "st", "key"], label=f"off_policy.{phase} ({L} steps) with LoggingCallback")
+                    ck.encoded(trp)
+                    itp = Interp()
+                    Sp = trp.symbols(itp)
+                    outp = trp.run(itp, Sp)
+                    cur = dict(Sp)
+                    ok_names = True
+                    for i in range(L):
+                        cur["key"] = arr0(ksplit(L)(Sp["key"][()], z3.IntVal(i)))
+                        o_i = tr.run(itp, cur)
+                        nxt = dict(cur)
+                        for n_out, v in o_i.items():
+                            n_in = "st_" + n_out[len("state_"):]
+                            if n_in not in nxt:
+                                ok_names = False
+                            nxt[n_in] = v
+                        cur = nxt
+                    same_names = ok_names and set(outp) == set(o_i)
+                    if not same_names:
+                        ck.fact(f"integration.{phase}_is_fold_of_step@{name},L={L}", False, f"outputs differ: {sorted(set(outp) ^ set(o_i))[:6]}")
+                        continue
+                    orc_p = {n_: o_i[n_] for n_ in outp}
+                    ck.prove(f"integration.{phase}_is_fold_of_step@{name},L={L}", concrete.key_axioms([Sp["key"][()]]), conj([eq_arr(outp[n_], orc_p[n_]) for n_ in outp]),
+                             replay=lambda res, trp=trp, Sp=Sp, itp=itp, orc_p=orc_p: concrete.replay_outputs(trp, Sp, res, uf_apps=itp.uf_apps, oracle=orc_p))
 
 
 def check_iteration(ck):
